@@ -64,7 +64,7 @@ var raceProps = map[string]bool{"C18": true}
 func racePhase(prop, tier string, seed uint64, workers, secs int, ks []known) ([]string, map[string]any) {
 	dir := filepath.Join(root, ".build", prop)
 	bin := filepath.Join(dir, "race.test")
-	cmd := exec.Command("go1.26.8", "test", "-race", "-c", "-o", bin, "./racecheck")
+	cmd := exec.Command("go1.26.8", append(append([]string{"test", "-race", "-c", "-o", bin}, modfileArgs()...), "./racecheck")...)
 	cmd.Dir = filepath.Join(root, "sim")
 	env := os.Environ()
 	env = append(env, "GOFLAGS=-mod=mod", "GOPROXY=off", "GOTOOLCHAIN=local", "GOSUMDB=off")
@@ -180,14 +180,41 @@ func goEnv() []string {
 	return env
 }
 
+// repoDir is the tree under test: /repo, or $VERIF_REPO for background sweeps
+// on a snapshot (the registered checks always use /repo).
+func repoDir() string {
+	if r := os.Getenv("VERIF_REPO"); r != "" {
+		return r
+	}
+	return "/repo"
+}
+
+// modfileArgs returns -modfile arguments if the tree under test is not /repo.
+func modfileArgs() []string {
+	if repoDir() == "/repo" {
+		return nil
+	}
+	src, err := os.ReadFile(filepath.Join(root, "sim", "go.mod"))
+	if err != nil {
+		fatal2("%v", err)
+	}
+	alt := filepath.Join(root, ".build", "go.alt.mod")
+	os.MkdirAll(filepath.Dir(alt), 0o755)
+	os.WriteFile(alt, []byte(strings.ReplaceAll(string(src), "=> /repo", "=> "+repoDir())), 0o644)
+	if sum, err := os.ReadFile(filepath.Join(root, "sim", "go.sum")); err == nil {
+		os.WriteFile(filepath.Join(root, ".build", "go.alt.sum"), sum, 0o644)
+	}
+	return []string{"-modfile=" + alt}
+}
+
 func build(prop string, overlay bool) string {
 	dir := filepath.Join(root, ".build", prop)
 	os.MkdirAll(dir, 0o755)
 	bin := filepath.Join(dir, "sim.test")
-	args := []string{"test", "-c", "-o", bin}
+	args := append([]string{"test", "-c", "-o", bin}, modfileArgs()...)
 	if overlay {
 		ov := filepath.Join(dir, "overlay.json")
-		cmd := exec.Command(filepath.Join(root, "bin", "instr"), "-repo", "/repo", "-out", filepath.Join(dir, "overlay"), "-json", ov)
+		cmd := exec.Command(filepath.Join(root, "bin", "instr"), "-repo", repoDir(), "-out", filepath.Join(dir, "overlay"), "-json", ov)
 		cmd.Stderr = os.Stderr
 		cmd.Stdout = os.Stderr
 		if err := cmd.Run(); err != nil {
